@@ -117,8 +117,9 @@ inductive Step
   | unknown (what : String)
 deriving DecidableEq, Repr
 
-/-- raymond's `Escape`, which `{{Validator}}` (two braces) goes through in all five template sets: the tag text the
-    generated code hands to go-playground is the HTML-escaped validate string -/
+/-- raymond's `Escape`.  Until the fix for C05-F2 the validate string went through it (`{{Validator}}`, two braces) in all
+    five template sets; it is rendered as a Go string literal now and the tag is the declared string.  Kept for the
+    theorems that say what the escaping did. -/
 def htmlEscape (s : String) : String :=
   String.ofList (s.toList.flatMap fun c =>
     if c = '&' then "&amp;".toList else if c = '\'' then "&apos;".toList else if c = '<' then "&lt;".toList
@@ -132,7 +133,7 @@ def declType (p : Param) : String :=
 def paramSteps (p : Param) : List Step :=
   if p.isContext then [] else
   let var := p.name ++ "RawPtr"
-  if p.passedIn = "Body" then [.decl var (declType p), .body var (htmlEscape p.validator)]
+  if p.passedIn = "Body" then [.decl var (declType p), .body var p.validator]
   else
     [.decl var (declType p), .bind p.passedIn p.nameInSchema] ++
     (match convKey p.type with
@@ -140,7 +141,7 @@ def paramSteps (p : Param) : List Step :=
         | some (_, fn, bits) => [.conv fn.name (match bits with | some b => toString b | none => "")]
         | none => []
      | none => []) ++
-    (if p.validator.isEmpty then [] else [.validate var (htmlEscape p.validator)])
+    (if p.validator.isEmpty then [] else [.validate var p.validator])
 
 def callArgs (r : Route) : List (String × Bool) :=
   r.params.map fun p => if p.isContext then ("ctx", false) else (p.name ++ "RawPtr", !p.type.isByAddress)
